@@ -146,10 +146,21 @@ func Main(m *testing.M) {
 
 // ExitInconclusive stops the process with the code the driver maps to 2.
 func ExitInconclusive(msg string) {
+	if violationSaved != "" {
+		// a violation was established and its replay written earlier in this
+		// process; this is a re-execution (the library's shrinking) that ended
+		// without verdict. The verdict stands.
+		fmt.Fprintf(os.Stderr, "note: a re-execution while shrinking ended without verdict (%s); the violation found before stands\n--- FAIL: violation (replay %s)\n", msg, violationSaved)
+		WriteStats()
+		os.Exit(1)
+	}
 	fmt.Fprintln(os.Stderr, "INCONCLUSIVE:", msg)
 	WriteStats()
 	os.Exit(3)
 }
+
+// violationSaved is the replay path of the first violation of this process.
+var violationSaved string
 
 // Guard converts an Inconclusive panic into process exit 3 (so that rapid
 // does not try to shrink an environment problem).
@@ -177,6 +188,9 @@ func SaveReplay(name string, v interface{ Save(string) error }) string {
 	}
 	p := filepath.Join(dir, name+".json")
 	v.Save(p)
+	if violationSaved == "" {
+		violationSaved = p
+	}
 	return p
 }
 
@@ -208,6 +222,30 @@ func Exec(c *Case) *World {
 	w := Run(c)
 	w.Destroy()
 	return w
+}
+
+// ExecQuiet executes a case like Exec, but an outcome without verdict does not
+// end the process: it returns (nil, reason). Used where a violation has been
+// found already (shrinking, re-execution of the shrunk case): a candidate
+// that cannot be judged is simply not taken.
+func ExecQuiet(c *Case) (w *World, noVerdict string) {
+	defer func() {
+		if r := recover(); r != nil {
+			inc, ok := r.(Inconclusive)
+			if !ok {
+				panic(r)
+			}
+			if running != nil {
+				running.Destroy()
+				running = nil
+			}
+			w, noVerdict = nil, inc.Msg
+		}
+	}()
+	journal(c)
+	w = Run(c)
+	w.Destroy()
+	return w, ""
 }
 
 // Report formats the findings of the owned classes (nil if none).
@@ -285,9 +323,10 @@ func CheckE1(t *testing.T, prop string, cfg GenCfg, nontrivial func(*Case, *Worl
 		RecordCase(prop, c, w, nontrivial(c, w))
 		if rep := Report(c, w, owned); rep != nil {
 			small := Shrink(c, owned, 400)
-			w2 := Exec(small)
-			if rep2 := Report(small, w2, owned); rep2 != nil {
-				c, rep = small, rep2
+			if w2, _ := ExecQuiet(small); w2 != nil {
+				if rep2 := Report(small, w2, owned); rep2 != nil {
+					c, rep = small, rep2
+				}
 			}
 			p := SaveReplay(prop, c)
 			rt.Fatalf("property %s violated (replay %s)\ncase: %s\n%s", prop, p, c, strings.Join(rep, "\n"))
